@@ -582,6 +582,11 @@ def _unfold(T, mode):
     return np.moveaxis(T, mode, 0).reshape(T.shape[mode], -1, 4)
 
 
+def _colset(M):
+    """multiset of columns of float (r, c, 4) as sorted bytes"""
+    return sorted(np.ascontiguousarray(M[:, j]).tobytes() for j in range(M.shape[1]))
+
+
 def j_unfold(name, fn, pre, kw, out):
     T = F(pre[0])
     b = bind(fn, pre, kw)
@@ -589,8 +594,12 @@ def j_unfold(name, fn, pre, kw, out):
         return []
     mode = int(list(b.values())[1])
     M = F(np.asarray(out))
+    W = _unfold(T, mode)
     o = Out("C18", "tensor_unfold", "repo-test", {"shape": list(T.shape[:3]), "mode": mode})
-    o.flag("UnfoldIsModeNFibres", bool(M is not None and M.shape == _unfold(T, mode).shape and np.array_equal(M, _unfold(T, mode))))
+    # the property fixes the shape and that the columns are the mode-n fibres, each once; their ORDER is a convention
+    # of the implementation (fold must invert it) and a different order is mechanism drift, not a violation
+    o.flag("UnfoldColumnsAreModeNFibres", bool(M is not None and M.shape == W.shape and _colset(M) == _colset(W)))
+    o.flag("M:DocumentedColumnOrder", bool(M is not None and M.shape == W.shape and np.array_equal(M, W)))
     return [o]
 
 
@@ -603,7 +612,9 @@ def j_fold(name, fn, pre, kw, out):
     mode, shape = int(vals[1]), tuple(vals[2])
     T = F(np.asarray(out))
     o = Out("C18", "tensor_fold", "repo-test", {"shape": list(shape), "mode": mode})
-    o.flag("FoldInvertsUnfold", bool(T is not None and T.shape[:3] == shape and np.array_equal(_unfold(T, mode), M)))
+    okshape = bool(T is not None and T.shape[:3] == shape)
+    o.flag("FoldFibresAreTheColumns", bool(okshape and _colset(_unfold(T, mode)) == _colset(M)))
+    o.flag("M:DocumentedColumnOrder", bool(okshape and np.array_equal(_unfold(T, mode), M)))
     return [o]
 
 
